@@ -316,7 +316,7 @@ def main(argv=None):
     known_active = [k for k in known if k.get('status') == 'known']
     baseline = load_baseline(pid)
     contracts = mod.CONTRACTS
-    idxs = [i for i, c in enumerate(contracts) if not a.only or a.only in c.key]
+    idxs = [i for i, c in enumerate(contracts) if not a.only or a.only in c.oname]
     lemmas = getattr(mod, 'LEMMAS', [])
     nproc = min(16, max(1, len(idxs) + len(lemmas)))
     with mp.Pool(nproc) as pool:
